@@ -125,16 +125,25 @@ func c18corpus(c *mon.Ctx) []c18font {
 			for i := range tail {
 				tail[i] = byte(0xA0 + i)
 			}
-			raw := addTable(buf.Bytes(), "zzzz", tail)
-			if wf, _ := sfntwalk.Walk(raw); wf != nil {
-				last := wf.Tables[0]
-				for _, t := range wf.Tables {
-					if t.Offset > last.Offset {
-						last = t
+			// under an unknown tag, and under tags of real tables the reader
+			// has no use for (the digital signature is the usual last table
+			// of signed fonts)
+			for _, tag := range []string{"zzzz", "DSIG", "meta", "PCLT"} {
+				raw := addTable(buf.Bytes(), tag, tail)
+				if wf, _ := sfntwalk.Walk(raw); wf != nil {
+					last := wf.Tables[0]
+					for _, t := range wf.Tables {
+						if t.Offset > last.Offset {
+							last = t
+						}
 					}
-				}
-				if last.Tag == "zzzz" {
-					fonts = append(fonts, c18font{"generated-1-glyf+trailing-unread-table", fonts[1].f, false, raw})
+					if last.Tag == tag {
+						name := "generated-1-glyf+trailing-unread-table"
+						if tag != "zzzz" {
+							name += ":" + tag
+						}
+						fonts = append(fonts, c18font{name, fonts[1].f, false, raw})
+					}
 				}
 			}
 			// the same with an empty table listed at the very end of the file
@@ -516,7 +525,7 @@ func runC18(c *mon.Ctx) {
 	})
 	c.Require("write-fault:Write:refuse", "write-fault:Write:short", "write-fault:WriteTrueTypePDF:short", "write-fault:WriteOpenTypeCFFPDF:short", "write-fault:cff.Font.Write:refuse",
 		"write-success:Write", "read-fault:truncated/ReaderAt", "read-fault:truncated/Reader", "read-fault:failing/ReaderAt", "read-fault:failing/Reader", "read-success:failing/ReaderAt",
-		"read-fault:generated-1-glyf+trailing-unread-table", "read-fault:generated-1-glyf+trailing-empty-table")
+		"read-fault:generated-1-glyf+trailing-unread-table", "read-fault:generated-1-glyf+trailing-empty-table", "read-fault:generated-1-glyf+trailing-unread-table:DSIG")
 	_ = cff.OpMoveTo
 }
 
